@@ -279,12 +279,21 @@ def merge(results):
     return m
 
 
-def run_corpus(pid):
-    """replays hunt/<pid>/finding_*.py (curated reproduction scripts, exit 1 = violation present) against the repository"""
+def run_corpus(pid, tier):
+    """replays hunt/<pid>/finding_*.py (curated reproduction scripts, exit 1 = violation present) against the repository.
+    quick tier: only the scripts that are NOT listed as open known findings (the repaired reports: regression guards);
+    the listed ones demonstrate defects that are still there (several of them by being slow) and are replayed in the
+    thorough tier."""
     import glob
     from concurrent.futures import ThreadPoolExecutor
 
     files = sorted(glob.glob(os.path.join(HERE, "hunt", pid, "finding_*.py")))
+    skipped = 0
+    if tier == "quick":
+        listed = {k["key"] for k in load_known() if k["property"] == pid}
+        keep = [f for f in files if f"{pid}/corpus/{os.path.basename(f)[:-3]}" not in listed]
+        skipped = len(files) - len(keep)
+        files = keep
     env = dict(os.environ, PYTHONPATH=os.pathsep.join([REPO] + [p for p in os.environ.get("PYTHONPATH", "").split(os.pathsep) if p and p != REPO]),
                PYTHONDONTWRITEBYTECODE="1", PYTHONHASHSEED="0")
 
@@ -296,13 +305,15 @@ def run_corpus(pid):
             return f, "timeout", ""
 
     with ThreadPoolExecutor(max_workers=8) as ex:
-        return list(ex.map(one, files))
+        return list(ex.map(one, files)), skipped
 
 
 def decide(a, mod, results, dead, t0, nsh):
     pid = a.prop
     m = merge(results)
-    corpus = run_corpus(pid) if not a.replay else []
+    corpus, corpus_skipped = run_corpus(pid, a.tier) if not a.replay else ([], 0)
+    if corpus_skipped:
+        m["counters"]["corpus:listed_known_findings_not_replayed_in_quick_tier"] = corpus_skipped
     for f, rc, tail in corpus:
         name = os.path.basename(f)[:-3]
         m["counters"]["corpus:scripts_run"] = m["counters"].get("corpus:scripts_run", 0) + 1
